@@ -38,7 +38,9 @@ CHECKS = {
     'C11': "Proved (all token trees, combinators included): C11_unique - invariant text => no other text is in the documented language (hypothesis on the two tables: a "
            "caseless character only folds to itself; validated over all code points on every run); two different texts => variant. Tie: text() vs the model. Oracle: "
            "invariant text is matched (absent separator classes) and is the only matched path, incl. its case variants.",
-    'C12': "Proved (all token trees, combinators included): has_root = Always => every path of the documented language begins with a separator. Tie: has_root(), "
+    'C12': "Proved (all token trees, combinators included): has_root = Always => every path of the documented language begins with a separator; "
+           "C12_semantic_literals_found - the breadth-first literal search reaches every component at every nesting depth (fuel proved adequate), so a component spelled "
+           "`.` or `..` anywhere makes has_semantic_literals true. Tie: has_root(), "
            "has_semantic_literals(). Oracle: matched paths of always-rooted patterns; globs never Sometimes (one known class); `.`/`..` components at any depth.",
     'C17': "Proved (all strings): every span of the token tree of an expression that parses, every capture span, every location of a parse error and the span of every "
            "rule error delimit whole characters of the expression (within bounds, on character boundaries) - by induction over the fuelled model of the nom grammar and "
